@@ -13,6 +13,7 @@ CLAIMED = {
  "C06": "Symbolic execution of the three real feasibility checkers on symbolic schedules, limits, tolerances (and symbolic coefficients for n=2): on every path the verdict is sandwiched between the phasor definition with the limit scaled by (1-1e-9) and (1+1e-9), written as polynomial inequalities and decided by z3 (nonlinear real arithmetic); interface==network; linear mode conservative on both implementations; constraint-free networks accept everything and run the real schedulers.",
  "C03": "Inductive one-step obligations (arbitrary valid battery state, all parameters symbolic reals) for ideal / two-stage continuous / stepwise x noise on/off, discharged by z3 on every path of the real charge(); plus constructor/reset refusal and the EVSE->EV->Battery chain. Bounded model checking is the right level: the property is a universally quantified arithmetic fact about one step of a small state machine.",
 }
+CLAIMED["C13"] = "Symbolic execution of the real EVSE/DeadbandEVSE/FiniteRatesEVSE set_pilot/_valid_rate/plugin with symbolic parameters (range ends, deadband end, <=3 unsorted/duplicated rate levels), symbolic pilot and an arbitrary accepted prior pilot, with and without a real EV+Battery in symbolic state: accepted <=> within 1e-3 of the allowable set (z3, linear real arithmetic, every path); rejection leaves pilot/EV/battery valid-equal; every value advertised by the EVSE, the ChargingNetwork cache, Interface and InfrastructureInfo is a member of the set and is accepted by a real set_pilot; occupied plug-in refused."
 NA_REASON = "check not built yet (work in progress in this session; see DESIGN.md section 4 for the planned harness)"
 props = [json.loads(l) for l in open(os.path.join(ROOT, "properties.jsonl"))]
 checks, na = [], []
